@@ -97,6 +97,8 @@ pub fn eval_oods_boundary_poly_at_points<Layout: LayoutTrait>(
     let mut evaluations = Vec::with_capacity(points.len());
 
     for (i, &point) in points.iter().enumerate() {
+        #[cfg(swiftness_verif)]
+        swiftness_transcript::verif::tick("stark.oods_point", 1 + eval_info.oods_values.len() as u64);
         let mut column_values = Vec::with_capacity(
             n_original_columns + n_interaction_columns + Layout::CONSTRAINT_DEGREE,
         );
